@@ -337,6 +337,21 @@ def check_dataset(job):
     return out
 
 
+def spell_dates(dates):
+    """a set of dates in the documented list syntax, runs of consecutive days as a:b ranges, the LAST run first and a range never first
+    when there is a choice (single dates and ranges mix in one list)"""
+    ds = sorted(int(d) for d in dates)
+    runs = []
+    for d in ds:
+        if runs and d == runs[-1][1] + 1:
+            runs[-1][1] = d
+        else:
+            runs.append([d, d])
+    parts = ["%d" % a if a == b else "%d:%d" % (a, b) for a, b in runs]
+    parts.sort(key=lambda p: (":" in p, p))        # singles first, then the ranges
+    return ",".join(parts)
+
+
 def opts_argv(o):
     """the subsetting options of a TLC dataset as command-line tokens"""
     g = set(o.get("given", []))
@@ -347,6 +362,9 @@ def opts_argv(o):
         if name in g:
             vals = o[name]
             if name == "lx" and not vals:
+                continue
+            if name == "d":
+                argv += [flag, spell_dates(vals)]
                 continue
             argv += [flag, f(vals)]
     if "T" in g:
